@@ -88,6 +88,7 @@ class C12:
                     meta.append((mi, ui, False))
         r, res = run_subs(get_ex, schema, subs)
         fails, keys, cc = [], [], {}
+        crashed_already = [False]
         if res[0]["parse"] is None or res[0]["parse"]["rc"] != 0:
             if not r.clean and res[0]["parse"] is None:
                 return Outcome(failure=Failure("die/%s" % r.death(), r.stderr.decode("latin-1")[:1500]), classes=["died"])
@@ -104,7 +105,10 @@ class C12:
                 keys.append(h64(sub["text"] + str(withflag)))
             e = rs["parse"]
             sig = msg = None
+            if e is None and crashed_already[0]:
+                continue            # only the first sub-case without a result is the victim of the crash
             if e is None:
+                crashed_already[0] = True
                 sig, msg = "die/%s" % r.death(), "child died: %s\n%s" % (r.death(), r.stderr.decode("latin-1")[:1200])
             elif withflag:
                 if e["rc"] != 0:
